@@ -195,7 +195,7 @@ fn attempt(bi: &BaseImg, patches: &[(u64, Vec<u8>)], truncate_to: Option<u64>, s
         let total = fs.stats().map(|s| s.total_clusters());
         let _ = fs.root_dir().iter().next();
         let _ = fs.read_status_flags();
-        std::mem::forget(fs);
+        drop(fs);
         Ok((w, cs, total.unwrap_or(u32::MAX)))
     });
     let ctx = || format!("{} [{}] strict={strict}", bi.name, what);
